@@ -62,7 +62,8 @@ class StubGP:
 
 
 def hedge_bfs(args):
-    beta, gamma, decay, depth = args
+    beta, gamma, decay, depth = args[:4]
+    nfun = args[4] if len(args) > 4 else 2
     sh = sys.modules.get("pybads.search.search_hedge")
     if sh is None:
         import pybads.search  # noqa
@@ -95,7 +96,7 @@ def hedge_bfs(args):
         sh.np = NPX()
         sh.ESSearchWM = StubES
         sh.ESSearchELL = StubES
-        h0 = sh.ESSearchHedge([("ES-wcm", 1), ("ES-ell", 1)], opts, None)
+        h0 = sh.ESSearchHedge([("ES-wcm", 1), ("ES-ell", 1), ("ES-wcm", 0)][:nfun], opts, None)
         canon = lambda h: tuple(float("%.10g" % v) for v in h.g)
         frontier = [h0]
         states.add(canon(h0))
@@ -181,6 +182,8 @@ def run(ctx):
     # (b)
     depth = 4 if q else 6
     hcfgs = [(beta, 0.125, decay, depth) for beta in (1.0, 0.1, 10.0) for decay in (0.1 ** 0.5, 0.1 ** 0.25)]
+    # portfolios of one and of three strategies (the exploration floor and the normalisation must follow the portfolio size)
+    hcfgs += [(1.0, 0.125, 0.1 ** 0.5, max(2, depth - 1), nf) for nf in (1, 3)]
     hcfgs += [(1.0, 0.0, 0.1 ** 0.5, depth), (0.1, 0.3, 0.1 ** 0.5, depth)]
     hs = ht = 0
     for args, ns, nt, bad in pmap(hedge_bfs, hcfgs):
@@ -215,6 +218,10 @@ def run(ctx):
     # more than two ES generations with filters that can empty a whole generation (thin feasible sets, active constraints)
     base += [job(D, g, "det", c, s, target=t, opts={"n_search_iter": ni, "max_fun_evals": 60}) for D in (1, 2) for g in ("lin", "lin2") for c in ("slab", "annulus", "ball", "half")
              for t in ("sphere_corner", "sphere_out") for ni in (3, 4) for s in (seeds + [seeds[0] + 5]) if not (c == "slab" and g == "lin2")]
+    # a user-supplied LCB schedule (a function of the evaluation count and the *dimension*); portfolios of one and three strategies
+    base += [job(D, g, m, None, seeds[0], target="sphere_corner", opts={"search_acq_fcn": ("acq_LCB", "SCHEDULE_D")}) for D in (1, 2, 3) for g in ("lin", "lin2") for m in ("det", "decl")]
+    base += [job(D, "lin", m, c, seeds[0], target="sphere_corner", opts={"search_method": sm}) for D in (1, 2) for m in ("det", "decl") for c in (None, "ball")
+             for sm in ([["ES-wcm", 1]], [["ES-ell", 1]], [["ES-wcm", 1], ["ES-ell", 1], ["ES-wcm", 0]])]
     # search mesh coarsening again after refinements, next to hard bounds that are not on the mesh (the rounded box must follow the mesh)
     base += [job(D, g, m, None, s, target="sphere_out", opts=dict(o, max_fun_evals=70 if m == "det" else 90)) for D in (1, 2, 3) for g in ("lin2", "log2")
              for m in ("det", "decl") for o in ({}, {"search_mesh_expand": 1}) for s in (seeds + [seeds[0] + 11])]
